@@ -15,6 +15,7 @@ import warnings
 from fractions import Fraction
 
 from .. import core
+from .. import forms as formlib
 from .. import xstats_oracle as orc
 
 KINDS = ("stddev", "quantile", "min", "max", "covariance", "corrcoef")
@@ -66,8 +67,15 @@ def gen_case(rng, kind):
     # model / oracle give the true statistic.  The two-pass code itself rounds the per-cell mean to
     # ulp(offset)/2, an absolute variance error of about n*ulp(offset)^2/4: negligible up to 1.7e9 with a unit
     # spread; for 2^40 the spread unit is 2^10 so that the error stays far below the 1e-9 tolerance.
+    # 'compact integer' content: scores 0..200 / -120..120 with integer frequency weights 1..5, so that when BOTH are
+    # handed over as narrow integer arrays (see choose_forms) value*weight lies beyond the dtype
+    compact = kind in ("stddev", "quantile", "covariance") and rng.random() < 0.15
+    if compact:
+        ftype, den = "int", 1
+        lo, hi = rng.choice([(0, 200), (-120, 120), (0, 120)])
+        fact = [[float(rng.randint(lo, hi)) for _ in range(ncol)] for _ in range(N)]
     offset, unit = 0, 1
-    if kind in OFFSET_KINDS and rng.random() < 0.3:
+    if kind in OFFSET_KINDS and not compact and rng.random() < 0.3:
         offset = rng.choice(OFFSETS)
         unit = 1024 if abs(offset) >= 2 ** 38 else 1
         fact = [[float(offset) + x * unit for x in row] for row in fact]
@@ -94,7 +102,9 @@ def gen_case(rng, kind):
     if wkind != "none":
         pool = [0.5, 1.0, 2.0, 0.25, 1.5, 3.0, 4.0] if rng.random() < 0.6 else [0.5, 1.0, 2.0, 4.0]
         w = [rng.choice(pool) for _ in range(N)]
-        if kind == "stddev" and rng.random() < 0.3:
+        if compact:
+            w = [float(rng.randint(1, 5)) for _ in range(N)]
+        elif kind == "stddev" and rng.random() < 0.3:
             w = [0.0 if rng.random() < 0.25 else x for x in w]
         pw = rng.choice([0.0, 0.0, 0.15, 0.3])
         wvalid = [rng.random() >= pw for _ in range(N)]
@@ -103,7 +113,7 @@ def gen_case(rng, kind):
     # 2^e (exact in float64; the exact model / oracle see the scaled weights too) must change nothing; 'all' rescales
     # every row, 'stratum' only the rows of one cell (a tiny / huge stratum next to ordinary ones)
     wpow, wpow_kind = 0, None
-    if wkind != "none" and rng.random() < 0.3:
+    if wkind != "none" and not compact and rng.random() < 0.3:
         wpow = rng.choice(WPOWS)
         wpow_kind = rng.choice(["all", "all", "stratum"])
         if wpow_kind == "stratum" and N:
@@ -120,7 +130,139 @@ def gen_case(rng, kind):
             "ign": rng.random() < 0.5, "p": p,
             "sentinel": rng.choice([0, 0, -7, 3]) if ftype != "float" else rng.choice([0, 0.0, -7.0, 2.5])}
     fix_zero_weight_cells(case)
+    case["compact"] = compact
+    case["forms"] = choose_forms(rng, case)
     return case
+
+
+# ----------------------------------------------------------------------------------------------
+# the FORM of the arguments (dtype, memory layout, container) - the content, hence the Gallina literal and the
+# oracle, is untouched.  Choices are stored in the case (replay / shrink rebuild exactly the same arrays).
+# Not generated because the UNCHANGED code does not take them (see notes/xstats.md 'FORM FINDINGS'): integer-dtype
+# weights for covariance; interacting_shape as a list or as NumPy UNSIGNED scalars; weights of shape (N, 1); an
+# (N, 1) fact for min / max (one-column facts only); datetime64 units other than [s] (the sentinel of the
+# (values, validity) report is unit-relative).
+# ----------------------------------------------------------------------------------------------
+
+LAYOUTS_1D = ["strided", "readonly", "negstride", "list"]
+LAYOUTS_2D = ["fortran", "transposed-store", "strided", "readonly", "negstride", "list"]
+
+
+def _integral(xs):
+    return all(math.isfinite(x) and float(x) == int(x) for x in xs)
+
+
+def _f32_exact(np, xs):
+    return all(math.isfinite(x) and float(np.float32(x)) == float(x) for x in xs)
+
+
+def choose_forms(rng, case):
+    import numpy as np
+    F = {}
+    kind, N, K = case["kind"], case["N"], case["K"]
+    ncol = 1 if K is None else K
+    valid_vals = [case["fact"][r][k] for r in range(N) for k in range(ncol) if case["fvalid"][r][k]]
+    allvalid = len(valid_vals) == N * ncol
+    weighted = case["wkind"] != "none"
+    valid_w = [case["w"][r] for r in range(N) if case["wvalid"][r]] if weighted else []
+    narrow_pair = case.get("compact") and weighted and kind != "covariance" and rng.random() < 0.7
+    # facts
+    if case["ftype"] != "datetime":
+        can_int = N > 0 and _integral(valid_vals) and (case["fform"] in ("pair", "plain") or allvalid)
+        if narrow_pair and can_int and case["wkind"] == "pair" or (narrow_pair and can_int and all(case["wvalid"])):
+            cands = [d for d in formlib.int_dtypes_holding([int(x) for x in valid_vals] + [int(x) for x in valid_w])
+                     if d in ("int8", "uint8", "int16", "uint16")]
+            if cands:
+                F["fact_dtype"] = F["w_dtype"] = cands[0] if rng.random() < 0.7 else rng.choice(cands)
+        if "fact_dtype" not in F and rng.random() < 0.4:
+            opts = []
+            if can_int:
+                opts += formlib.int_dtypes_holding([int(x) for x in valid_vals] or [0])
+            if case["ftype"] == "float" and _f32_exact(np, valid_vals):
+                opts += ["float32", "float32"]
+            if case["ftype"] == "int":
+                opts += ["float64"]
+            if opts:
+                F["fact_dtype"] = rng.choice(opts)
+    if rng.random() < 0.35:
+        F["fact_layout"] = rng.choice(LAYOUTS_1D if K is None else LAYOUTS_2D)
+        if case["ftype"] == "datetime" and F["fact_layout"] == "list":
+            F["fact_layout"] = "readonly"          # a list of datetime.datetime objects is not a datetime64 fact
+    if kind in ("min", "max") and str(F.get("fact_dtype", "")).startswith(("int", "uint")):
+        case["sentinel"] = int(case["sentinel"])   # an integer result array cannot hold the sentinel 2.5 ...
+        if F["fact_dtype"].startswith("uint") and case["sentinel"] < 0:
+            case["sentinel"] = 3                   # ... nor an unsigned one the sentinel -7 (NumPy raises OverflowError)
+    if K is None and kind in ("stddev", "quantile") and rng.random() < 0.15:
+        F["fact_col"] = True                                   # shape (N, 1): "several columns", one of them
+    # weights
+    if weighted:
+        if "w_dtype" not in F and rng.random() < 0.4:
+            opts = []
+            if kind != "covariance" and N > 0 and _integral(valid_w) and (case["wkind"] == "pair" or all(case["wvalid"])):
+                opts += formlib.int_dtypes_holding([int(x) for x in valid_w] or [0])
+            if _f32_exact(np, valid_w):
+                opts += ["float32"]
+            if opts:
+                F["w_dtype"] = rng.choice(opts)
+        if rng.random() < 0.35:
+            F["w_layout"] = rng.choice(LAYOUTS_1D)
+    # dimension arrays: any integer dtype that holds the values, any layout, lists
+    F["dim_dtypes"] = [rng.choice(formlib.int_dtypes_holding(d or [0])) if rng.random() < 0.6 else case["dimdtype"] for d in case["dims"]]
+    F["dim_layouts"] = [rng.choice(LAYOUTS_1D) if rng.random() < 0.3 else "c" for _ in case["dims"]]
+    # scalars
+    if rng.random() < 0.3:
+        F["shape_form"] = rng.choice(["int64", "int32", "int16", "int8", "intp"])
+    if kind == "quantile" and rng.random() < 0.4:
+        opts = ["float64", "array0d"]
+        if float(np.float32(case["p"])) == case["p"]:
+            opts.append("float32")
+        if case["p"] in (0.0, 1.0):
+            opts += ["int", "int8", "uint8"]
+        F["p_form"] = rng.choice(opts)
+    return F
+
+
+def apply_layout(np, a, kind):
+    if kind in (None, "c"):
+        return a
+    if kind == "list":
+        return a.tolist()
+    if kind == "fortran":
+        return np.asfortranarray(a)
+    if kind == "transposed-store":
+        return np.transpose(np.ascontiguousarray(np.transpose(a)))
+    if kind == "strided":
+        big = np.zeros((a.shape[0] * 2,) + a.shape[1:], dtype=a.dtype)
+        big[::2] = a
+        if a.dtype.kind == "f":
+            big[1::2] = np.nan
+        return big[::2]
+    if kind == "negstride":
+        return a[::-1].copy()[::-1]
+    b = a.copy()
+    b.setflags(write=False)
+    return b
+
+
+def form_tags(case):
+    F = case.get("forms") or {}
+    tags = []
+    for k in ("fact_dtype", "fact_layout", "w_dtype", "w_layout", "shape_form", "p_form"):
+        if F.get(k):
+            tags.append("%s=%s" % (k, F[k]))
+    if F.get("fact_col"):
+        tags.append("fact (N,1)")
+    for d in F.get("dim_dtypes", []):
+        tags.append("dim_dtype=%s" % d)
+    for l in F.get("dim_layouts", []):
+        if l != "c":
+            tags.append("dim_layout=%s" % l)
+    if F.get("fact_dtype") and F.get("fact_dtype") == F.get("w_dtype") and F["fact_dtype"] in ("int8", "uint8", "int16", "uint16"):
+        tags.append("narrow fact x narrow weights (same dtype), products beyond the dtype: %s"
+                    % any(not (-(2 ** (8 * (1 if "8" in F["fact_dtype"] else 2) - (0 if F["fact_dtype"][0] == "u" else 1))) <= int(x[0]) * int(wt)
+                               < 2 ** (8 * (1 if "8" in F["fact_dtype"] else 2) - (0 if F["fact_dtype"][0] == "u" else 1)))
+                          for x, wt in zip(case["fact"], case["w"])))
+    return tags
 
 
 def fix_zero_weight_cells(case):
@@ -227,7 +369,10 @@ def with_fractions(case):
 
 def build_args(np, case, wscale=None):
     N, K = case["N"], case["K"]
-    dims = [np.array(d, dtype=case["dimdtype"]) for d in case["dims"]]
+    F = case.get("forms") or {}
+    ddt = F.get("dim_dtypes") or [case["dimdtype"]] * len(case["dims"])
+    dly = F.get("dim_layouts") or ["c"] * len(case["dims"])
+    dims = [apply_layout(np, np.array(d, dtype=ddt[i]), dly[i]) for i, d in enumerate(case["dims"])]
     ft = case["ftype"]
     shape = (N,) if K is None else (N, K)
     fv = np.array(case["fvalid"], dtype=bool).reshape(shape)
@@ -240,44 +385,80 @@ def build_args(np, case, wscale=None):
     else:
         vals = (np.array([[int(x) for x in r] for r in case["fact"]], dtype=np.int64).reshape(shape) + EPOCH0).astype("datetime64[s]")
         hid = (np.array(case["fhidden"], dtype=np.int64).reshape(shape) + EPOCH0).astype("datetime64[s]")
-    if case["fform"] == "plain":
-        farg = vals
+    fdt = F.get("fact_dtype")
+    if fdt and ft != "datetime":
+        with np.errstate(all="ignore"):
+            if fdt.startswith(("int", "uint")):
+                hid = np.full(shape, np.iinfo(fdt).max, dtype=fdt)       # something the dtype can hold under validity False
+                v0 = vals.copy()
+                v0[~fv] = 0
+                vals = v0.astype(fdt)
+            else:
+                vals, hid = vals.astype(fdt), hid.astype(fdt)
+    fly = F.get("fact_layout")
+    col = (lambda a: a.reshape(N, 1)) if F.get("fact_col") else (lambda a: a)
+    if case["fform"] == "plain" or (case["fform"] == "nan" and vals.dtype.kind in "iu"):
+        farg = apply_layout(np, col(vals), fly)
     elif case["fform"] == "nan":
         farg = vals.copy()
         farg[~fv] = np.datetime64("NaT") if ft == "datetime" else float("nan")
+        farg = apply_layout(np, col(farg), fly)
     else:
         v2 = vals.copy()
         v2[~fv] = hid[~fv]
-        farg = (v2, fv.copy())
+        farg = (apply_layout(np, col(v2), fly), apply_layout(np, col(fv.copy()), fly if fly != "strided" else "negstride"))
     warg = None
     if case["wkind"] != "none":
         wv = np.array(case["wvalid"], dtype=bool)
         wa = np.array(case["w"], dtype=float)
         if wscale is not None:
             wa = wa * wscale
+        wdt = F.get("w_dtype") if wscale is None else None
+        wly = F.get("w_layout") if wscale is None else None
         if case["wkind"] == "arr":
             wa = wa.copy()
             wa[~wv] = float("nan")
-            warg = wa
+            if wdt:
+                wa = wa.astype(wdt)                         # integer dtypes are only chosen when every weight is valid
+            warg = apply_layout(np, wa, wly)
         else:
             wa = wa.copy()
-            wa[~wv] = np.array(case["whidden"], dtype=float)[~wv]
-            warg = (wa, wv.copy())
+            with np.errstate(all="ignore"):
+                if wdt and wdt.startswith(("int", "uint")):
+                    wa[~wv] = 0
+                    wa = wa.astype(wdt)
+                    wa[~wv] = np.iinfo(wdt).max
+                else:
+                    wa[~wv] = np.array(case["whidden"], dtype=float)[~wv]
+                    if wdt:
+                        wa = wa.astype(wdt)
+            warg = (apply_layout(np, wa, wly), apply_layout(np, wv.copy(), wly if wly != "strided" else "readonly"))
     return dims, farg, warg
 
 
 def call(catii, np, case, fmt, wscale=None):
     """fmt 'nan' | 'pair'.  Returns the raw return value of the xcube method."""
     dims, farg, warg = build_args(np, case, wscale)
-    cube = catii.xcube(dims, interacting_shape=tuple(case["exts"]))
+    F = case.get("forms") or {}
+    shape = tuple(case["exts"])
+    if F.get("shape_form"):
+        shape = tuple(np.dtype(F["shape_form"]).type(e) for e in shape)
+    cube = catii.xcube(dims, interacting_shape=shape)
     kind = case["kind"]
     kw = {"ignore_missing": case["ign"]}
+    pf, p = F.get("p_form"), case["p"]
+    if pf == "array0d":
+        p = np.array(p)
+    elif pf == "int":
+        p = int(p)
+    elif pf:
+        p = np.dtype(pf).type(p)
     if fmt == "pair":
         kw["return_missing_as"] = (case["sentinel"], False)
     if kind in ("min", "max"):
         return getattr(cube, kind)(farg, **kw)
     if kind == "quantile":
-        return cube.quantile(farg, case["p"], weights=warg, **kw)
+        return cube.quantile(farg, p, weights=warg, **kw)
     return getattr(cube, kind)(farg, weights=warg, **kw)
 
 
@@ -529,6 +710,14 @@ def run(ctx):
                 "about 30 % of the weighted cases (stddev, weighted quantile, covariance) are weight-SCALE cases: all weights, or the weights of "
                 "the rows of one cell ('tiny / huge stratum'), multiplied by 2^e, e in {-60,-40,-20,20,40} (exact in float64; the unchanged "
                 "code has no absolute threshold on weight sums in these three statistics, so no scale is excluded); "
+                "the FORM of the arguments varies with unchanged content (tags counted in coverage.forms): facts and weights as float64 / float32 "
+                "(when exact) / every integer dtype that holds the values (about 15 % 'compact integer' cases: scores 0..200 with integer "
+                "weights 1..5, mostly handed over as uint8 x uint8 / int8 / int16 with products beyond the dtype), C / Fortran / "
+                "transposed / strided / negative-stride / read-only arrays and lists, (N,) vs (N,1) facts (stddev, quantile), dimension "
+                "arrays in every integer dtype and layout, interacting_shape and probability as NumPy scalars; NOT generated because the "
+                "unchanged code does not take them: integer-dtype weights for covariance and interacting_shape as NumPy unsigned scalars "
+                "(both written up as FORM FINDINGS in notes/xstats.md), interacting_shape as a list, (N,1) weights, (N,1) facts for "
+                "min/max, datetime64 units other than [s]; "
                 "plus a 'huge' stream judged by the model-free oracle ONLY (no Coq literal; counted in huge_cases_oracle_only): per round "
                 "(1 quick, 3 thorough) nine cases with N in 65 537..150 000 rows (more than any 65536-row block), 0-2 dimensions of "
                 "2-4 categories, 2-5 missing rows of which one lies in the first 65536-row block and one beyond it: min/max under "
@@ -562,6 +751,7 @@ def run(ctx):
     feats = {}
     offs = {}
     wsc = {}
+    formc = {}
     for i in range(n_inputs):
         for kind in KINDS:
             case = gen_case(ctx.rng, kind)
@@ -571,6 +761,8 @@ def run(ctx):
             dist[key] = dist.get(key, 0) + 1
             for f in features(case, res):
                 feats[f] = feats.get(f, 0) + 1
+            for tg in form_tags(case):
+                formc[tg] = formc.get(tg, 0) + 1
             if case.get("wpow"):
                 wk = "%s weights x 2^%d (%s)" % (kind, case["wpow"], case["wpow_kind"])
                 wsc[wk] = wsc.get(wk, 0) + 1
@@ -607,6 +799,7 @@ def run(ctx):
     ctx.coverage["large_offset_total"] = sum(offs.values())
     ctx.coverage["weight_scale_cases"] = dict(sorted(wsc.items()))
     ctx.coverage["weight_scale_total"] = sum(wsc.values())
+    ctx.coverage["forms"] = dict(sorted(formc.items()))
     ctx.samples = [{k: c[k] for k in ("kind", "exts", "dims", "fact", "fvalid", "wkind", "w", "wvalid", "ign", "p")} for c in cases[:3]]
 
     res = core.run_cases("c18", "From Catii Require Import Cube.XStats Cube.XStatsCheck.", lits, "case_t", "check_case",
